@@ -233,6 +233,26 @@ def cases(run, rng):
             if "(" + flat + ")" not in nested:
                 FAIL.append({"kind": "a nested set operation is not the flat one in parentheses", "class": QNAMES[D], "construct": cname, "leaf": "set-operation", "depth": 1,
                              "mode": "inline", "with_generic_inner": nested, "with_dialect_inner": "(" + flat + ")"})
+    # ---- (A3) ... whichever class a (second or later) OPERAND was built with: the set operation of class D with an operand built by class I reads
+    #      as the one built with D throughout (the operand's own builder flags decide nothing once it is rendered through D)
+    t_, u_, v_, w_ = P.Table("t"), P.Table("u"), P.Table("v"), P.Table("w")
+    for D, I in itertools.product(QUERY_CLASSES, repeat=2):
+        if D is I:
+            continue
+
+        def so(X, D=D):
+            return (D.from_(t_).select(t_.x).where(t_.y > t_.z).union(X.from_(u_).select(u_.x).where(u_.y.isnull()))
+                    .intersect(D.from_(v_).select(v_.x)).union_all(X.from_(w_).select(w_.x).groupby(w_.x)))
+        for cname, outer in (("set operation (stand-alone)", lambda s: s), ("set operation in FROM", lambda s, D=D: D.from_(s).select("x")),
+                             ("set operation in IN", lambda s, D=D: D.from_(w_).select(w_.x).where(w_.x.isin(s))),
+                             ("set operation in a CTE body", lambda s, D=D: D.with_(D.from_(s).select("x"), "c9").from_(P.AliasedQuery("c9")).select("*"))):
+            for param in (False, True):
+                mixed, _ = render(outer(so(I)), D, param)
+                pure, _ = render(outer(so(D)), D, param)
+                SEEN[0] += 1
+                if mixed != pure:
+                    FAIL.append({"kind": "operands built with %s inside a %s set operation change the text" % (QNAMES[I], QNAMES[D]), "class": QNAMES[D], "construct": cname,
+                                 "leaf": "set-operand", "depth": 1, "mode": "param" if param else "inline", "with_generic_inner": mixed, "with_dialect_inner": pure})
     # ---- (B) all ordered pairs on the neutral subset
     progs = neutral_programs()
     for (D1, D2), (k, pf) in itertools.product(itertools.permutations(QUERY_CLASSES, 2), enumerate(progs)):
